@@ -7,7 +7,7 @@ Oracle
    every job of the program ran 1 + (injected execute-phase failures of that job) times; a job
    whose faults were in the schedule or transfer phase ran once; nothing else ran.
  * fault sets containing fail-stop/all - NECESSARY CONDITION from the statement: a job X that ran
-   more often than 1 + its own failures must (a) be a provenance ancestor (program graph) of a job
+   more often than 1 + its own failures (failing executions or recover() calls for it) must (a) be a provenance ancestor (program graph) of a job
    that failed, and (b) have had output files deleted by a logged loss before that re-execution
    started; and every job with an injected execute failure ran at least failures+1 times.
    Secondary failures (a sibling whose input vanished) count as failures of that sibling.
@@ -37,7 +37,7 @@ def plan(tier):
         "shards": 16,
         "budget_s": 45 if q else 500,
         "timeout_s": 420 if q else 2000,
-        "min_nontrivial": 50 if q else 1000,
+        "min_nontrivial": 50 if q else 600,
         "required_counters": ["oracle_exact_counts", "oracle_necessary_condition", "jobs_checked"],
         "rule": "case = (shape, fault set, seed); single faults over every (job, phase, soft|own, count 1..3) of shapes with "
                 "parallel branches (scatter 3/5, diamond, scatter-diamond), pipelines and loops, multi-fault subsets, and "
@@ -84,7 +84,7 @@ def run_case(sh: Shard, case: dict) -> None:
 
     prog, faults, seed, mode = case["prog"], case["faults"], case["seed"], case["mode"]
     res = R.run_sync(prog, faults, os.path.join(sh.scratch, "case"), seed=seed, max_retries=LIMIT,
-                     wall_timeout=sh.pick(60, 300))
+                     wall_timeout=sh.pick(90, 300))
     key = (prog["shape"], C.fault_key(faults), seed)
     completed = res.status == "ok" and res.outputs == [R.denote(prog)]
     sh.case(key, nontrivial=C.fired(res) > 0 and completed)
@@ -112,8 +112,17 @@ def run_case(sh: Shard, case: dict) -> None:
     if mode == "exact":
         sh.count("oracle_exact_counts")
         wrong = {}
+        two_input = {j["job"] for j in jobs if len(j["deps"]) >= 2}
+        own_dir_faults = {f["job"] for f in faults if f["kind"] == "own" and f["phase"] != "execute"}
         for j in names:
             want = 1 + exec_faults.get(j, 0)
+            # a fail-stop(own) fault in the transfer/schedule phase of a TWO-input job deletes the job's
+            # input directory, i.e. also the file the other transfer step had already staged: the command
+            # then fails once for real (input missing) - that is a failure of the job itself
+            genuine = sum(1 for e in res.execs.get(j, ()) if e["outcome"] == "genuine")
+            if genuine and j in two_input and j in own_dir_faults:
+                want += genuine
+                sh.count("two_input_job_lost_staged_input")
             sh.count("jobs_checked")
             if counts.get(j, 0) != want:
                 wrong[j] = {"ran": counts.get(j, 0), "predicted": want}
@@ -127,7 +136,10 @@ def run_case(sh: Shard, case: dict) -> None:
     for j in names:
         sh.count("jobs_checked")
         execs = res.execs.get(j, [])
-        own_fail = sum(1 for e in execs if e["outcome"] in ("injected", "genuine"))
+        # failures of the job itself: failing executions, and failures after the command returned (output
+        # file deleted before the token was built) - every one of them goes through recover(job)
+        own_fail = max(sum(1 for e in execs if e["outcome"] in ("injected", "genuine")),
+                       len(res.recover_calls.get(j, ())))
         # failures of j in the schedule / transfer phase re-run the phase, not the command
         if exec_faults.get(j, 0) and len(execs) < exec_faults[j] + 1:
             bad(f"{j} failed {exec_faults[j]} times in the execute phase but ran only {len(execs)} times")
